@@ -195,3 +195,23 @@ Theorem C07_checker_terminates_without_the_oracle : forall intern P fuel,
   no_oracle P = true -> (check_fuel_needed P <= fuel)%nat -> check_program_t intern fuel P <> CNoFuel.
 Proof. exact check_terminates_no_oracle. Qed.
 Print Assumptions C07_checker_terminates_without_the_oracle.
+
+(* ------------------------------------------------------------------ THE HEADLINE, FROM THE TEXT
+   (Check/FrontEndTotal.v): [front_end] = model scanner -> model parser (with the linear fuel) ->
+   model checker (with its computable fuel) on the parsed program.  Its answer is a typed program,
+   scan errors, a parse error, a type error or "outside the checker model" - never "out of fuel",
+   never "crash", never "panic" ([FInternal]): for every text whose parsed program does not consult
+   the exhaustiveness oracle ([no_oracle]), and for every text under the explicit oracle-fuel
+   hypothesis. *)
+From GV Require Import Check.FrontEndTotal.
+
+Theorem C07_front_end_is_total : forall intern bytes main,
+  match parsed_program bytes main with Some P => no_oracle P = true | None => True end ->
+  front_end intern bytes main <> FInternal.
+Proof. exact front_end_total. Qed.
+Print Assumptions C07_front_end_is_total.
+
+Theorem C07_front_end_is_total_under_oracle_fuel_partial : forall intern bytes main,
+  (forall D ps ty, nf (check_exhaustiveness intern D ps ty)) -> front_end intern bytes main <> FInternal.
+Proof. exact front_end_total_hex. Qed.
+Print Assumptions C07_front_end_is_total_under_oracle_fuel_partial.
